@@ -10,7 +10,7 @@ from __future__ import annotations
 import z3
 
 from pyvc.engine import Contract, Frame, LoopSpec
-from pyvc.values import BOOL, INT, LIST, REF, forall
+from pyvc.values import ANY, BOOL, INT, LIST, REF, forall
 
 from .core import register
 from .spec import Inst, bv, imp, rng
@@ -420,3 +420,117 @@ class InstanceInit(Contract):
         h, I = c.h, c["self"]
         return [("stores-the-jobs", h.get("jobs", I) == c["jobs"]),
                 ("operations-numbered-when-requested", imp(c["set_operation_attributes"], numbered(h, I)))]
+
+
+# ---------------------------------------------------------------------------
+# JobShopInstance.from_matrices (two argument shapes: machine ids / lists of machine ids)
+# ---------------------------------------------------------------------------
+class _FromMatrices(Contract):
+    properties = ("C14",)
+    source = "JobShopInstance.from_matrices"
+    ret = REF("JobShopInstance")
+    flexible = False
+
+    def _shape(self, h, dm, mm):
+        j, p = bv("j"), bv("p")
+        dr, mr = h.at(dm, j), h.at(mm, j)
+        A = h.alloc
+        return [("matrices", z3.And(dm > 0, dm < A, mm > 0, mm < A, dm != mm, h.len(dm) >= 0, h.len(mm) >= h.len(dm))),
+                ("rows", forall([j], imp(rng(j, 0, h.len(dm)), z3.And(dr > 0, dr < A, mr > 0, mr < A, h.len(dr) >= 0,
+                                                                     h.len(mr) >= h.len(dr))),
+                                patterns=[h.at(dm, j), h.at(mm, j)]))] + (
+            [("machine-lists", forall([j, p], imp(z3.And(rng(j, 0, h.len(dm)), rng(p, 0, h.len(dr))),
+                                                  z3.And(h.at(mr, p) > 0, h.at(mr, p) < A)), patterns=[h.at(h.at(mm, j), p)]))]
+            if self.flexible else [])
+
+    def requires(self, c):
+        return self._shape(c.h0, c["duration_matrix"], c["machines_matrix"])
+
+    def modifies(self, c):
+        return Frame(fields={"$gj": "ALL", "$gp": "ALL", "$$cumL": "ALL"}, alloc_objects=True, alloc_lists=True)
+
+    def _built(self, h0, h, dm, mm, jobs, upto_job=None, upto_pos=None):
+        """jobs[j][p] is a new operation with duration dm[j][p] and machines mm[j][p] (wrapped in a new one-element list
+        when it is a machine id)"""
+        j, p = bv("j"), bv("p")
+        o = h.at(h.at(jobs, j), p)
+        dom = z3.And(rng(j, 0, h0.len(dm)), rng(p, 0, h0.len(h0.at(dm, j))))
+        if upto_job is not None:
+            dom = z3.And(dom, j < upto_job if upto_pos is None else z3.Or(j < upto_job, z3.And(j == upto_job, p < upto_pos)))
+        ml = h.get("machines", o)
+        given = h0.at(h0.at(mm, j), p)
+        top = jobs + h0.len(dm)       # the job rows are the block of lists allocated right after `jobs`
+        mach = (ml == given) if self.flexible else z3.And(ml > top, ml < h.alloc, h.len(ml) == 1, h.at(ml, 0) == given)
+        return forall([j, p], imp(dom, z3.And(o > top, o < h.alloc, gj(h, o) == j, gp(h, o) == p,
+                                              h.get("duration", o) == h0.at(h0.at(dm, j), p), mach)),
+                      patterns=[h.at(h.at(jobs, j), p)])
+
+    def ensures(self, c):
+        h0, h, I = c.h0, c.h, c.result
+        dm, mm = c["duration_matrix"], c["machines_matrix"]
+        it = Inst(h, I)
+        j = bv("j")
+        return [("a-new-instance", z3.And(I >= h0.alloc, I < h.alloc)),
+                ("one-job-per-row-one-operation-per-entry", z3.And(it.J == h0.len(dm), forall([j], imp(
+                    rng(j, 0, it.J), it.L(j) == h0.len(h0.at(dm, j))), patterns=[it.job(j)]))),
+                ("operation-(j,p)-has-duration-and-machines-of-entry-(j,p)", self._built(h0, h, dm, mm, it.jobs)),
+                ("operations-numbered", numbered(h, I))]
+
+    @property
+    def ghost_after(self):
+        def appended(c, st):
+            h = st.heap
+            jobs, jid = st.env["jobs"], st.env["job_id"].t
+            row = h.at(jobs, jid)
+            n = h.len((row, "c"))
+            o = h.at((row, "c"), n - 1)
+            st.heap = h.put("$gj", o, jid).put("$gp", o, n - 1)
+        return {"jobs[job_id].append(Operation(duration=duration, machines=machines))": appended}
+
+    @property
+    def loops(self):
+        def common(k, j, p):
+            h0, h = k.h0, k.h
+            dm, mm = k["duration_matrix"], k["machines_matrix"]
+            jobs = k.v("jobs")
+            t = bv("jt")
+            row = h.at(jobs, t)
+            if p is None:
+                ln = z3.If(t < j, h0.len(h0.at(dm, t)), 0)
+            else:
+                ln = z3.If(t < j, h0.len(h0.at(dm, t)), z3.If(t == j, p, 0))
+            return [("jobs-list", z3.And(jobs >= h0.alloc, jobs < h.alloc, h.len(jobs) == h0.len(dm), k.v("num_jobs") == h0.len(dm))),
+                    ("job-rows", forall([t], imp(rng(t, 0, h0.len(dm)), z3.And(row > jobs, row <= jobs + h0.len(dm), row < h.alloc,
+                                                                               h.len(row) == ln)),
+                                        patterns=[h.at(jobs, t)])),
+                    ("job-rows-distinct", forall([t, bv("jt2")], imp(z3.And(rng(t, 0, h0.len(dm)), rng(bv("jt2"), 0, h0.len(dm)),
+                                                                            h.at(jobs, t) == h.at(jobs, bv("jt2"))), t == bv("jt2")),
+                                                 patterns=[z3.MultiPattern(h.at(jobs, t), h.at(jobs, bv("jt2")))])),
+                    ("built-so-far", self._built(h0, h, dm, mm, jobs, j, p))]
+
+        def outer(k):
+            return common(k, k.i, None)
+
+        def inner(k):
+            j0 = k.outer[-1]
+            return [("row", z3.And(k.v("job_id") == j0, rng(j0, 0, k.h0.len(k["duration_matrix"])),
+                                   k.n == k.h0.len(k.h0.at(k["duration_matrix"], j0)), k.v("num_operations") == k.n))] + common(k, j0, k.i)
+
+        def mod(k):
+            A0 = k.h0.alloc
+            return Frame(fields={"$gj": "ALL", "$gp": "ALL"}, lists=lambda l: l >= A0, alloc_objects=True, alloc_lists=True)
+        return {0: LoopSpec("for job_id in range(num_jobs)", outer, mod),
+                1: LoopSpec("for position_in_job in range(num_operations)", inner, mod)}
+
+
+@register
+class FromMatrices(_FromMatrices):
+    name = "JobShopInstance.from_matrices"
+    params = {"duration_matrix": LIST(LIST(INT)), "machines_matrix": LIST(LIST(INT)), "name": ANY, "metadata": ANY}
+
+
+@register
+class FromMatricesFlexible(_FromMatrices):
+    name = "JobShopInstance.from_matrices$flexible"
+    params = {"duration_matrix": LIST(LIST(INT)), "machines_matrix": LIST(LIST(LIST(INT))), "name": ANY, "metadata": ANY}
+    flexible = True
